@@ -37,7 +37,8 @@ class GConn(object):
 class Gen(object):
     def __init__(self, seed, napps=2, nsides=3, steps=60, p_illegal=0.08, restarts=True,
                  use_time=True, explicit_sweeps=False, cross_app_mailboxes=False, max_conns=6,
-                 names=None, p_third=0.15, body_prefix="b", long_advances=True, list_cmd=True, hostile=False, empty_side=False):
+                 names=None, p_third=0.15, body_prefix="b", long_advances=True, list_cmd=True, hostile=False, empty_side=False,
+                 switch_blur=None):
         self.r = random.Random(seed)
         self.seed = seed
         self.apps = APPS[:napps]
@@ -65,6 +66,7 @@ class Gen(object):
         self.body_prefix = body_prefix
         self.long_advances = long_advances
         self.list_cmd = list_cmd
+        self.switch_blur = switch_blur
         self.conns = {}
         self.nconn = 0
         self.nbody = 0
@@ -116,7 +118,10 @@ class Gen(object):
             if self.restarts and x < 0.265:
                 for c in live:
                     c.alive = False
-                self.emit("restart")
+                if self.switch_blur and r.random() < 0.6:
+                    self.emit("restart", {"blur": r.choice(self.switch_blur)})
+                else:
+                    self.emit("restart")
                 continue
             if self.explicit_sweeps and x < 0.30:
                 self.emit("sweep")
